@@ -61,7 +61,7 @@ func genSSTWAL(r *rand.Rand, prop, tier string) simcore.Case {
 		}
 		cs.Cfg["n"] = n
 		cs.Cfg["target"] = []int64{0, 40, 64, 100, 300, 1000, 20000}[r.IntN(7)] // 0 = single table via Write
-		if n > 200 { // big tables are there for bloom false positives, not for thousands of tiny tables
+		if n > 200 {                                                            // big tables are there for bloom false positives, not for thousands of tiny tables
 			cs.Cfg["target"] = []int64{0, 5000, 20000, 100000}[r.IntN(4)]
 			cs.Cfg["pol.sticky"] = 2
 		}
@@ -364,8 +364,8 @@ func bodyWAL(c *sim.Ctx) {
 	}
 	var ops []walOp // everything ever appended, in order
 	seq := uint64(0)
-	lastCut := uint64(0)    // latest sequence number covered by a Cut (what a flush could have persisted)
-	truncated := uint64(0)  // highest sequence number passed to a completed Truncate
+	lastCut := uint64(0)   // latest sequence number covered by a Cut (what a flush could have persisted)
+	truncated := uint64(0) // highest sequence number passed to a completed Truncate
 	pendingTrunc := make(chan uint64, 64)
 	done := make(chan struct{})
 	c.Go("truncater", func() { // the flush goroutine's share: wal.Truncate(latestSeqNum) under the DB lock
